@@ -323,6 +323,19 @@ func (h *H) comparePackage(gp *gotypes.Package, p *types.Package) {
 		}
 		if isGen {
 			h.stats["generic_objects_excluded"]++
+			// a generic function or variable must simply be absent after the conversion (model: conv = None)
+			if _, isType := o.(*gotypes.TypeName); !isType && h.ncase < 6000 {
+				if fs.Lookup(name) != nil {
+					h.fail("generic object present after conversion", path, name, fkind(fs.Lookup(name)), "skipped")
+				}
+				n := intern{}
+				if src := encG(o.Type(), n, 0); len(src) < 20000 {
+					h.cw.Add(fmt.Sprintf("mkCase %d%%Z %s None", h.ncase, src))
+					h.rep.CaseInput(h.ncase, path+"."+name)
+					h.ncase++
+					h.stats["generic_cases_for_model"]++
+				}
+			}
 			continue
 		}
 		if _, isAlias := o.Type().(*gotypes.Alias); isAlias {
@@ -447,7 +460,7 @@ func main() {
 		"plus hand-made packages type-checked from source (corpus) and a PRNG sample of type terms for the Coq model")
 	wd := vh.NewWatchdog(rep, 300*time.Second)
 	h := &H{a: a, rep: rep, nfail: map[string]int{}, stats: map[string]int{}, rng: rng}
-	h.cw = vh.NewCases(a, "From Coq Require Import List NArith ZArith Bool.\nFrom Verif Require Import C30.Model.\nImport ListNotations.", "case", "mismatches", 150)
+	h.cw = vh.NewCases(a, "From Coq Require Import List NArith ZArith Bool.\nFrom Verif Require Import C30.Model.\nImport ListNotations.\nOpen Scope N_scope.", "case", "mismatches", 150)
 	t0 := time.Now()
 
 	wd.Beat("go list std")
